@@ -873,7 +873,8 @@ def _key(k):
 # search / search_all against an independent depth-first walk
 # ---------------------------------------------------------------------------------------------
 search_leaves = st.one_of(st.booleans(), st.integers(0, 300), st.sampled_from(["s", ""]), st.sampled_from([b"x"]))
-search_keys = st.sampled_from(["a", "aa", "ab", "aba", "abb", "abc", "abca", "b", "ba", "c", "ada", "_a", "_ab", "x"])
+# (keys that are not text - records grouped by number, say - are never matched themselves, but what is stored under them is searched)
+search_keys = st.sampled_from(["a", "aa", "ab", "aba", "abb", "abc", "abca", "b", "ba", "c", "ada", "_a", "_ab", "x", 1, 7, (1, 2), b"ab"])
 PATTERNS = ["a", "ab", "ab.*", "a$", "aba|abb", "b", ".*a$", "abc[ab]", "_a", "x|c", "zz", "", "a{2}", "(a|b)b"]
 
 
